@@ -12,7 +12,7 @@ LEVEL = "fault_enumeration"
 RULE = ("for each response kind (state, capabilities, properties, energy, humidity): a valid frame describing a state different in every "
         "field from the client's current one is corrupted at one byte position after the start byte with a substitute value, either "
         "plain (outer checksum now wrong) or - for body bytes other than the trailing check byte - with the outer checksum recomputed; "
-        "the client has previously learned a capability profile with property-protocol features, energy and humidity reporting and holds valid readings; the frame is the only answer to every command of a refresh() (and for capabilities also to get_capabilities()). Independent validity predicate "
+        "the client has previously learned a capability profile with property-protocol features, energy and humidity reporting and holds valid readings; the frame is the only answer to every command of a refresh() (and for capabilities also to get_capabilities()); in half of the cases another client object with its own device receives and accepts the genuine frame first (and again every 10 corruptions). Independent validity predicate "
         "V = outer checksum ok and (id in {B0,B1} or CRC-8 ok or additive ok); for not V: to_dict() and the capability attributes must be "
         "unchanged and online/supported must be False. Corruptions with V true (the other check matches by chance, or the property-response "
         "exemption) are skipped and counted. distinct = (kind, position, value, fix-up); all judged cases are non-trivial")
@@ -72,7 +72,7 @@ def generate(ctx, rng):
                     vals = sorted(rng.sample(range(1, 256), 51))
                 else:
                     vals = list(range(1, 256))
-                yield ("c", check, kind, pos), {"kind": kind, "check": check, "pos": pos, "xors": vals}
+                yield ("c", check, kind, pos), {"kind": kind, "check": check, "pos": pos, "xors": vals, "genuine_seen": pos % 2 == 1}
     # the length byte (position 1) with all 255 values over many different valid frames (a weakened outer check that trusts the
     # declared length is only fooled by particular frame contents)
     for j in range(40 if quick else 600):
@@ -126,6 +126,22 @@ def run_case(ctx, case):
 
     dev.on_exchange = on_exchange
     out = []
+    # a second appliance with its own client object: it receives (and accepts) the genuine frame that the first one only ever
+    # sees corrupted - whatever the library remembers about a frame it has validated must not vouch for an altered copy
+    dev2 = SimDevice(net, host="10.0.0.3", version=2, device_id=0x78, ac=ACModel(S0))
+    feed2 = {"frames": None}
+    dev2.on_exchange = lambda conn, req, packets, meta: None if feed2["frames"] is None else [(0, dev2.wrap(conn, f)) for f in feed2["frames"]]
+    other = {"ac": None, "n": 0}
+
+    async def genuine_elsewhere(frame):
+        if other["ac"] is None:
+            other["ac"] = AC(ip=dev2.host, port=dev2.port, device_id=dev2.device_id)
+        feed2["frames"] = [frame]
+        if len(frame) > 10 and frame[10] == 0xB5:
+            await other["ac"].get_capabilities()
+        else:
+            await other["ac"].refresh()
+        other["n"] += 1
 
     async def baseline(ac):
         feed["frames"] = None
@@ -158,7 +174,9 @@ def run_case(ctx, case):
             frame = frames[kind]
             pos_list = [(case["pos"], x) for x in case["xors"]]
         n = len(frame)
-        for pos, x in pos_list:
+        for i, (pos, x) in enumerate(pos_list):
+            if case.get("genuine_seen", kind == "lenbyte") and i % 10 == 0:
+                await genuine_elsewhere(frame)
             c = bytearray(frame)
             c[pos] ^= x
             variants = [("plain", bytes(c))]
@@ -188,6 +206,7 @@ def run_case(ctx, case):
                         base = await baseline(ac)
 
     H.run_virtual(go, net)
+    ctx.bump("genuine-frame-accepted-by-another-client-first", other["n"])
     for rec in out:
         if rec[0] == "baseline":
             _, k, changed, online, supported = rec
